@@ -29,6 +29,15 @@ strings x positions, shape x text are crossed in full):
   F9 attribute layout                      attributeStart {20, 24, 28} x attributeSize {20, 24, 28} x filler {0x00, 0xA5}
                                            x every ordered selection of 0..3 of six attribute variants on the root (+ a
                                            child with two attributes and text) x pool (x resource map for pairs)
+  F10 id-only names x prefixes             attributes whose pool name is empty and whose name comes from the resource map id
+                                           (name, label, layout_width, id) under the prefix android / a second prefix of the
+                                           same URI / no namespace, ordered pairs with named-mapped, unknown-id and plain
+                                           attributes x value type x 2 shapes x pool x 3 pool orders
+  F11 maxima                               255 / 256 / 1000 / 4096 (thorough 65535) attributes on one element with a
+                                           resource map of half of them, depth 40 / 200, 40 / 300 namespace declarations
+  every document (except families F2, F6 and the permuted-pool F1 documents) is preceded, in the same judged unit, by a DECOY document with the same names, ids,
+  namespaces and pool layout but other values; and (except F2, F2b, F6) is also read through the AXMLParser event
+  iterator, whose event sequence must equal the model's
   F7 id/class/style indices                ordered selections of <= 3 of {android:id, class, style, plain} with the
                                            idIndex/classIndex/styleIndex header fields set x pool x resource map x 2 shapes
 Caps: <= 4 elements, <= 4 attributes per document, depth <= 3.
@@ -51,7 +60,9 @@ ASSUMPTIONS = [
     "surrogates) stay outside the alphabet; no comment indices; no styled pools",
     "dimension/fraction data use non-negative mantissas here: the sign of complex values is C27's subject and C27 runs it "
     "through this same writer",
-    "resource map: ids known to androguard's public table are only paired with their matching name",
+    "resource map: ids known to androguard's public table are paired with their matching name or with an empty name "
+    "(id-only, F10: the name then is the android.R.attr constant of that id; 7 well-known ids hard-coded in the check)",
+    "the AXMLParser iterator reports mapped attribute names with ':' for '_' (layout:width); names are compared modulo that",
     "the default (empty-prefix) namespace is compared by URI only; TYPE_NULL attribute values are not compared",
     "full cartesian product is replaced by the union of sub-products listed in the module docstring",
 ]
@@ -79,7 +90,7 @@ SHAPES = [(-1,), (-1, 0), (-1, 0, 0), (-1, 0, 1), (-1, 0, 0, 0), (-1, 0, 1, 0), 
 
 # namespace configurations: name -> function(elems) that fills decl / element ns
 NSCFG = ["none", "android-root", "android+app-root", "app-nested", "android-redeclared", "prefix-shadowed",
-         "two-prefixes-one-uri", "element-ns-root", "element-ns-all", "default-ns"]
+         "two-prefixes-one-uri", "element-ns-root", "element-ns-all", "default-ns", "app+android-root"]
 
 STRINGS = {
     "empty": "", "len1": "x", "ascii": "hello world", "spaces": "  lead and trail ", "len127": "a" * 127, "len128": "b" * 128,
@@ -138,6 +149,8 @@ def apply_ns(cfg, elems, shape):
         root["decl"] = [["android", ANDROID]]
     elif cfg == "android+app-root":
         root["decl"] = [["android", ANDROID], ["app", APP]]
+    elif cfg == "app+android-root":          # the same two declarations in the other chunk order
+        root["decl"] = [["app", APP], ["android", ANDROID]]
     elif cfg == "app-nested":
         root["decl"] = [["android", ANDROID]]
         (first_child or root)["decl"] = (first_child or root)["decl"] + [["app", APP]]
@@ -446,12 +459,89 @@ def fam_layout(ctx, astart, asize):
             yield item
 
 
-FAMILIES = {"F9": fam_layout, "F8": fam_chars, "F7": fam_index, "F1": fam_shapes, "F2": fam_pairs, "F2b": fam_cross, "F6": fam_variant_shapes, "F3": fam_strings,
+def fam_ridonly(ctx, nskind):
+    """F10: resource-id-only attribute names (empty pool string + id in the resource map, as aapt2 writes with name
+    stripping) together with namespace prefixes: ordered selections of 1..2 of {four id-only android attributes, a named
+    mapped one, an unknown-id custom one, a plain one}; the id-only attributes carry the android URI (declared under the
+    prefix "android" or under a second prefix for the same URI) or no namespace."""
+    uri = {"android": ANDROID, "second-prefix": ANDROID, "none": None}[nskind]
+    cands = [("rid", "name"), ("rid", "label"), ("rid", "layout_width"), ("rid", "id"), ("named", "icon"), ("unknown", "c"), ("plain", "p")]
+    sels = [(c,) for c in cands] + [(a, b) for a in cands for b in cands if a != b]
+    for sel in sels:
+        for (t, v), si, utf8, order in itertools.product(((3, "v"), (0x01, 0x7F040001)), (0, 1), (False, True), POOLORDERS):
+            elems = skeleton(SHAPES[si], ["a", "b1"][:si + 1])
+            apply_ns("two-prefixes-one-uri", elems, SHAPES[si])
+            if nskind == "second-prefix":
+                elems[0]["decl"] = [["a2", ANDROID], ["app", APP]]      # the android URI is only reachable through "a2"
+            for kind, nm in sel:
+                if kind == "rid":
+                    a = {"ns": uri, "name": "", "rid": KNOWN_RID[nm]}
+                elif kind == "named":
+                    a = {"ns": ANDROID, "name": nm, "rid": KNOWN_RID[nm]}
+                elif kind == "unknown":
+                    a = {"ns": APP, "name": nm, "rid": UNKNOWN_RID[nm]}
+                else:
+                    a = {"ns": None, "name": nm}
+                a["t"], a["d"] = t, 0
+                if t == 3:
+                    a["s"] = v
+                else:
+                    a["d"] = v
+                elems[-1]["attrs"].append(a)
+            yield finish(elems, utf8, True, {"fam": "F10", "ns": "ridonly-" + nskind, "resmap": "id-only"}, order)
+
+
+def fam_maxima(ctx, which):
+    """F11: one representative at (or across) the size limits the writer controls - outside the <= 4 element cap."""
+    for utf8 in (False, True):
+        if which == "attrs":
+            counts = [255, 256, 1000, 4096] + ([65535] if ctx.thorough and not utf8 else [])
+            for n in counts:
+                elems = skeleton(SHAPES[0], ["a"])
+                apply_ns("android+app-root", elems, SHAPES[0])
+                for i in range(n):
+                    if i % 2:
+                        elems[0]["attrs"].append({"ns": None, "name": "p%d" % i, "t": 0x10, "d": i})
+                    else:
+                        elems[0]["attrs"].append({"ns": APP, "name": "r%d" % i, "t": 3, "d": 0, "s": "s%d" % (i % 7),
+                                                  "rid": 0x7F010000 + i})
+                yield finish(elems, utf8, True, {"fam": "F11", "ns": "android+app-root", "max": "attributes=%d" % n})
+        elif which == "depth":
+            for depth in (40, 200):
+                e = {"ns": None, "name": "a", "decl": [["android", ANDROID]], "attrs": [], "kids": []}
+                root = e
+                for i in range(depth - 1):
+                    k = {"ns": None, "name": NAMES[i % 3], "decl": [], "kids": [],
+                         "attrs": [{"ns": ANDROID, "name": "label", "t": 0x10, "d": i}]}
+                    e["kids"].append(k)
+                    e = k
+                e["kids"].append({"text": "deep"})
+                yield finish([root], utf8, False, {"fam": "F11", "ns": "android-root", "max": "depth=%d" % depth})
+        else:
+            for n in (40, 300):
+                elems = skeleton(SHAPES[1], ["a", "b1"])
+                elems[0]["decl"] = [["n%d" % i, "urn:x-%d" % i] for i in range(n)] + [["android", ANDROID]]
+                elems[1]["attrs"] = [{"ns": "urn:x-%d" % (n - 1), "name": "c", "t": 3, "d": 0, "s": "v"},
+                                     {"ns": "urn:x-0", "name": "d", "t": 0x10, "d": 1},
+                                     {"ns": ANDROID, "name": "name", "t": 3, "d": 0, "s": "w"}]
+                yield finish(elems, utf8, False, {"fam": "F11", "ns": "many-decl", "max": "declarations=%d" % n})
+
+
+FAMILIES = {"F11": fam_maxima, "F10": fam_ridonly, "F9": fam_layout, "F8": fam_chars, "F7": fam_index, "F1": fam_shapes, "F2": fam_pairs, "F2b": fam_cross, "F6": fam_variant_shapes, "F3": fam_strings,
             "F4": fam_text, "F5": fam_resmap}
 
 
+GROUPS = 64
+
+
 def shards(ctx):
+    """64 groups of sub-shards; each group runs in a fork of a pristine process (mc/fresh.py), its document order being
+    its history."""
     import androguard.core.axml      # noqa: loaded once in the runner (never called there), inherited by the forked workers
+    return [("g", i) for i in range(GROUPS)]
+
+
+def subshards(ctx):
     s = []
     nv = len(variants())
     for si in range(len(SHAPES)):
@@ -467,6 +557,8 @@ def shards(ctx):
     s += [("F7", i) for i in range(4)]
     s += [("F8", cp) for cp in XML_BOUNDARY]
     s += [("F9", a, b) for a in LAYOUT_SIZES for b in LAYOUT_SIZES]
+    s += [("F10", k) for k in ("android", "second-prefix", "none")]
+    s += [("F11", k) for k in ("attrs", "depth", "decls")]
     return s
 
 
@@ -479,6 +571,11 @@ def space(ctx):
             "xml_char_boundaries(F8)": ["U+%04X" % c for c in XML_BOUNDARY], "char_positions(F8)": list(CHAR_POSITIONS),
             "attribute_layout(F9)": {"attributeStart": LAYOUT_SIZES, "attributeSize": LAYOUT_SIZES, "filler": ["0x00", "0xA5"],
                                      "attributes_on_root": "0..3 (ordered selections of 6 variants)"},
+            "id_only_attribute_names(F10)": {"ids": ["name", "label", "layout_width", "id"],
+                                             "namespace": ["android prefix", "second prefix for the android URI", "none"]},
+            "maxima(F11)": {"attributes": [255, 256, 1000, 4096] + ([65535] if ctx.thorough else []), "depth": [40, 200],
+                            "namespace_declarations": [40, 300]},
+            "decoy_history": "every document except families F2, F6 and the F1 documents with a permuted pool", "event_iterator": "every document except F2, F2b, F6",
             "pools": ["utf16", "utf8"], "pool_entry_order(F1,F5)": POOLORDERS, "resource_map": ["off", "known ids + matching names", "unknown ids"],
             "caps": {"elements": 4, "depth": 3, "attributes_per_document": 4},
             "product": "NOT the full cartesian product: union of the exhaustive sub-products F1..F6 (module docstring); "
@@ -505,6 +602,85 @@ def strclass(s):
     return size
 
 
+# cost control (stated in space()): the two largest attribute-value products run without the decoy / the iterator pass;
+# their attribute variants are all covered with both in F2b, F9 and F10
+NO_DECOY = {"F2", "F6"}          # and F1 documents with a non-default pool order (see has_decoy)
+NO_EVENTS = {"F2", "F2b", "F6"}
+RID_NAMES = dict((v, k) for k, v in KNOWN_RID.items())      # public android attribute ids (android.R.attr constants)
+
+
+def attr_name(a, doc):
+    """The name an attribute has in the XML: its pool string, or - for a resource-id-only attribute (empty pool string, as
+    aapt2 writes with name stripping) - the android attribute the id stands for."""
+    if a["name"] == "" and doc.get("resmap") and a.get("rid") in RID_NAMES:
+        return RID_NAMES[a["rid"]]
+    return a["name"]
+
+
+def decoy_of(doc):
+    """A different document with the SAME element names, attribute names, namespaces, resource ids and pool layout but
+    other values: every string value / text gets a suffix, every typed datum one mantissa/low bit flipped."""
+    def conv(e):
+        out = dict(e)
+        out["attrs"] = []
+        for a in e.get("attrs", ()):
+            b = dict(a)
+            if a["t"] == 0x03:
+                b["s"] = a["s"][:20] + "~decoy"
+            else:
+                b["d"] = (a["d"] ^ 0x00000100) & 0xFFFFFFFF
+            out["attrs"].append(b)
+        out["kids"] = [({"text": k["text"][:20] + "~decoy"} if "text" in k else conv(k)) for k in e.get("kids", ())]
+        return out
+    d = dict(doc)
+    d["root"] = conv(doc["root"])
+    return d
+
+
+def expect_events(doc):
+    """Model -> the event sequence AXMLParser must yield: ("start", ns, name, [(ns, name, type, data|string)]),
+    ("text", s), ("end", ns, name)."""
+    out = []
+
+    def walk(e):
+        attrs = []
+        for a in e.get("attrs", ()):
+            attrs.append((a.get("ns") or "", attr_name(a, doc).replace(":", "_"), a["t"], a["s"] if a["t"] == 0x03 else a["d"] & 0xFFFFFFFF))
+        out.append(("start", e.get("ns") or "", e["name"], attrs))
+        for k in e.get("kids", ()):
+            if "text" in k:
+                out.append(("text", k["text"]))
+            else:
+                walk(k)
+        out.append(("end", e.get("ns") or "", e["name"]))
+    walk(doc["root"])
+    return out
+
+
+def real_events(ax, data):
+    """The same sequence read through the AXMLParser iterator API (the layer below AXMLPrinter)."""
+    p = ax.AXMLParser(data)
+    out = []
+    while p.is_valid():
+        ev = next(p)
+        if ev == ax.START_TAG:
+            attrs = []
+            for i in range(p.getAttributeCount()):
+                t = p.getAttributeValueType(i)
+                attrs.append((p.getAttributeNamespace(i), p.getAttributeName(i).replace(":", "_"), t,
+                              p.getAttributeValue(i) if t == 0x03 else p.getAttributeValueData(i)))
+            out.append(("start", p.namespace, p.name, attrs))
+        elif ev == ax.END_TAG:
+            out.append(("end", p.namespace, p.name))
+        elif ev == ax.TEXT:
+            out.append(("text", p.text))
+        elif ev == ax.END_DOCUMENT:
+            break
+    if not p.is_valid():
+        out.append(("invalid",))
+    return out
+
+
 def expect(doc):
     """Model -> expected tree: (tag, {qname: attr}, text, tail, nsmap, [children])."""
     def conv(e, inh):
@@ -514,7 +690,8 @@ def expect(doc):
         tag = ("{%s}%s" % (e["ns"], e["name"])) if e.get("ns") else e["name"]
         attrs = {}
         for a in e.get("attrs", ()):
-            q = ("{%s}%s" % (a["ns"], a["name"])) if a.get("ns") else a["name"]
+            nm = attr_name(a, doc)
+            q = ("{%s}%s" % (a["ns"], nm)) if a.get("ns") else nm
             attrs[q] = a
         node = {"tag": tag, "attrs": attrs, "text": "", "tail": "", "nsmap": m, "kids": [], "e": e, "mixed": False}
         last = None
@@ -599,7 +776,7 @@ def _short(s):
     return s if len(s) <= 40 else "%s...(%d chars)" % (s[:20], len(s))
 
 
-def check_doc(ax, acc, item):
+def check_doc(ax, acc, item, pf=None):
     """One document through the writer, the real parser and the comparison.  Shared by run_shard and replay."""
     from gen import axmlgen
     from lxml import etree
@@ -617,6 +794,14 @@ def check_doc(ax, acc, item):
         return
     diffs = []
     want = expect(doc)
+    # decoy history: a different document with the same names / ids / pool indices goes through the same API first
+    # (inside the judged unit, so that state carried from one document to the next reproduces in replay)
+    if feat["fam"] not in NO_DECOY and not (feat["fam"] == "F1" and "poolorder" in feat):
+        try:
+            ax.AXMLPrinter(axmlgen.write(decoy_of(doc))).get_xml_obj()
+            acc.count("decoy_documents")
+        except Exception:      # noqa
+            pass
     try:
         ap = ax.AXMLPrinter(data)
         root = ap.get_xml_obj()
@@ -638,6 +823,18 @@ def check_doc(ax, acc, item):
                     diffs.append(("print:exception", "%s / re-parse raised %s: %s" % (fn.__name__, type(e).__name__, e)))
                 if diffs:
                     break
+        if not diffs and feat["fam"] not in NO_EVENTS:
+            acc.count("event_iterator_documents")
+            # alternative entry point: the AXMLParser event iterator must tell the same story
+            try:
+                ge, we = real_events(ax, data), expect_events(doc)
+                if ge != we:
+                    i = next((i for i, (g, w) in enumerate(zip(ge, we)) if g != w), min(len(ge), len(we)))
+                    kind = (we[i][0] if i < len(we) else "extra")
+                    diffs.append(("events:%s" % kind, "AXMLParser event %d is %r, the model has %r"
+                                  % (i, ge[i] if i < len(ge) else None, we[i] if i < len(we) else None)))
+            except Exception as e:      # noqa
+                diffs.append(("events:exception", "AXMLParser iteration raised %s: %s" % (type(e).__name__, e)))
     acc.case(nontrivial=data, outcome=(feat["fam"], feat.get("shape"), cfg, sorted(set(k for k, _ in diffs))))
     seen = set()
     astart, asize = doc.get("attrstart") or 20, doc.get("attrsize") or 20
@@ -652,28 +849,62 @@ def check_doc(ax, acc, item):
         if key in seen:
             continue
         seen.add(key)
-        acc.violation(key, item, m)
+        w = {"history": [item]}
+        if pf:
+            w["_prefix"] = {"group": pf[0], "tier": pf[1], "upto": pf[2]}
+            w["_pkey"] = key + ":history-dependent"
+        acc.violation(key, w, m)
 
 
-def run_shard(ctx, shard):
-    from androguard.core import axml as ax
-    acc = Acc()
-    fam = shard[0]
+def _group(ctx, ax, g, acc, stop=None):
+    """The document sequence of group g.  stop=n: run the same sequence, judge only document n (prefix replay)."""
+    from gen import axmlgen
+    dummy = Acc()
     n = 0
-    for item in FAMILIES[fam](ctx, *shard[1:]):
-        check_doc(ax, acc, item)
-        n += 1
-        if n == 3 and shard in (("F1", 3, "app-nested"), ("F2", 5), ("F5", 0)):
-            from gen import axmlgen
-            acc.sample({"family": fam, "model": item["doc"], "bytes": len(axmlgen.write(item["doc"]))})
-    acc.count("documents_" + fam, n)
+    for sub in subshards(ctx)[g::GROUPS]:
+        fam, k = sub[0], 0
+        for item in FAMILIES[fam](ctx, *sub[1:]):
+            check_doc(ax, acc if stop is None or stop == n else dummy, item, pf=(g, ctx.tier, n))
+            if stop == n:
+                return
+            n += 1
+            k += 1
+            if k == 3 and stop is None and sub in (("F1", 3, "app-nested"), ("F10", "android"), ("F5", 0)):
+                acc.sample({"family": fam, "model": item["doc"], "bytes": len(axmlgen.write(item["doc"]))})
+        if stop is None:
+            acc.count("documents_" + fam, k)
+
+
+def _group_main(ctx, shard):
+    from androguard.core import axml as ax
+    from mc import fresh
+    acc = fresh.HistoryAcc(_SRV[0], replay, ctx)
+    _group(ctx, ax, shard[1], acc)
     return acc
 
 
+_SRV = [None]
+
+
+def run_shard(ctx, shard):
+    import os
+    import androguard.core.axml      # noqa: imported, never called here - this process stays pristine
+    from mc import fresh
+    if _SRV[0] is None or _SRV[0].owner != os.getpid():
+        _SRV[0] = fresh.Pristine()
+    return fresh.isolated(_group_main, ctx, tuple(shard))
+
+
 def replay(ctx, w):
+    """Judges the witness document (with its decoy) in this fresh process; a prefix witness re-runs its group up to it."""
     from androguard.core import axml as ax
+    from mc import core
     acc = Acc()
-    check_doc(ax, acc, w)
+    if "prefix" in w:
+        pf = w["prefix"]
+        _group(core.Ctx(tier=pf["tier"]), ax, pf["group"], acc, stop=pf["upto"])
+    else:
+        check_doc(ax, acc, w["history"][-1] if "history" in w else w)
     if acc.harness_errors:
         return "HARNESS: " + "; ".join(acc.harness_errors)
     if acc.viol:
